@@ -127,7 +127,11 @@ def gen_cases(tier, rng, families):
             ks = rng.sample(KEYS, 3)
             st = ["MP%s=x%02x%02x" % (k, rng.randrange(256), rng.randrange(256)) for k in ks]
             st += ["MCxfe:xff", "Q"]
-            st += ["MD" + ks[0], "MP%s=x%02x%02x" % (ks[1], rng.randrange(256), rng.randrange(256))]
+            if rng.random() < 0.5:
+                st += ["MD" + ks[0], "MP%s=x%02x%02x" % (ks[1], rng.randrange(256), rng.randrange(256))]
+            else:
+                # the same as one batch: a reader must not see the put without the delete
+                st += ["MB%s;%s=x%02x%02x" % (ks[0], ks[1], rng.randrange(256), rng.randrange(256))]
             if rng.random() < 0.5:
                 st += ["MD" + ks[2]]
             st += ["Abg:flush:building", "Tc:Cxfe:xff", "Vbg"]
